@@ -72,6 +72,23 @@ def verify(pid, x):
     return res
 
 
+import threading
+_worker_dirs = {}
+_wlock = threading.Lock()
+
+
+def lean_dir_for_worker():
+    """each worker thread gets its own copy of the Lean project (the translator rewrites Gen/Source.lean per source tree)"""
+    tid = threading.get_ident()
+    with _wlock:
+        if tid not in _worker_dirs:
+            d = os.path.join(MUT, "lean-%d" % len(_worker_dirs))
+            if not os.path.isdir(d):
+                sh(["rsync", "-a", os.path.join(VERIF, "lean") + "/", d + "/"])
+            _worker_dirs[tid] = d
+    return _worker_dirs[tid]
+
+
 def detect(mid, plist=None):
     """patch applied in /tmp/mut/wt-<mid>; run quick checks with CAT_REPO pointing there"""
     wt = wt_for(mid)
@@ -83,7 +100,7 @@ def detect(mid, plist=None):
         if a.returncode != 0:
             return {"error": "apply failed"}
     res = {}
-    env = dict(os.environ, CAT_REPO=wt, VERIF_NO_EVIDENCE="1", VERIF_REPLAY_DIR=os.path.join(MUT, "replays", mid))
+    env = dict(os.environ, CAT_REPO=wt, VERIF_NO_EVIDENCE="1", VERIF_REPLAY_DIR=os.path.join(MUT, "replays", mid), VERIF_LEAN=lean_dir_for_worker())
     for p in (plist or ALL):
         t = time.time()
         r = subprocess.run([sys.executable, os.path.join(VERIF, "tools/check.py"), p, "quick"], stdout=subprocess.PIPE, stderr=subprocess.PIPE, text=True, env=env, cwd=VERIF)
